@@ -21,27 +21,34 @@ pub fn gaps(seed: usize) -> Vec<f64> {
 
 thread_local! {
     pub static BUILDER_ORDER: std::cell::Cell<bool> = std::cell::Cell::new(false);
+    pub static CONST_LANE: std::cell::Cell<bool> = std::cell::Cell::new(false);
+    pub static BOUNDS_F: std::cell::Cell<bool> = std::cell::Cell::new(false);
     pub static AXIS_OFFSET: std::cell::Cell<f64> = std::cell::Cell::new(0.0);
     pub static AXIS_SCALE: std::cell::Cell<f64> = std::cell::Cell::new(1.0);
     pub static AXIS_GAPSET: std::cell::RefCell<String> = std::cell::RefCell::new(String::new());
     pub static AXIS_REVERSED: std::cell::Cell<bool> = std::cell::Cell::new(false);
 }
 pub fn axis(prefix: &str, n: usize, seed: usize) -> Array1<Sym> {
-    let mut g = gaps(seed);
+    let base = gaps(seed);
+    let m = n.saturating_sub(1);
     let gs = AXIS_GAPSET.with(|g| g.borrow().clone());
-    match gs.as_str() {
-        "uniform" => g = vec![1.0; 10],
+    // alternating 1.5 / 0.5 pairs (mean 1), padded with a 1.0 if the count is odd
+    let alt = |count: usize| -> Vec<f64> { let mut v: Vec<f64> = (0..count / 2).flat_map(|_| [1.5, 0.5]).collect(); if count % 2 == 1 { v.push(1.0); } v };
+    let g: Vec<f64> = match gs.as_str() {
+        "uniform" => vec![1.0; m],
         // first interval == mean interval although the axis is not uniform
-        "mean" => { g = vec![1.0, 1.5, 0.75, 0.75, 1.0, 1.0, 1.0, 1.0, 1.0, 1.0]; if n >= 2 { let m = n - 1; let s: f64 = g[..m].iter().sum(); let fix = m as f64 - s; g[m - 1] += fix; } }
-        "palindrome" => { let h = [0.5, 2.0, 1.25, 3.0, 0.75]; g = (0..10).map(|i| { let m = n.saturating_sub(1).max(1); let j = i.min(m - 1 - i.min(m - 1)); h[j % h.len()] }).collect(); }
-        _ => {}
-    }
+        "mean" => { let mut v = vec![1.0]; v.extend(alt(m.saturating_sub(1))); v.truncate(m); v }
+        // first AND last interval equal the mean interval; with start 0 the axis also runs from 0 to n-1 like the default index axis
+        "endsmean" => { if m >= 2 { let mut v = vec![1.0]; v.extend(alt(m - 2)); v.push(1.0); v } else { vec![1.0; m] } }
+        "palindrome" => { let h = [0.5, 2.0, 1.25, 3.0, 0.75]; (0..m).map(|i| h[i.min(m - 1 - i) % h.len()]).collect() }
+        _ => (0..m).map(|i| base[i % base.len()]).collect(),
+    };
     let scale = AXIS_SCALE.with(|o| o.get());
-    let mut v = -1.25 + seed as f64 * 0.5 + AXIS_OFFSET.with(|o| o.get());
+    let mut v = if gs == "endsmean" { 0.0 } else { -1.25 + seed as f64 * 0.5 } + AXIS_OFFSET.with(|o| o.get());
     let mut out = Vec::new();
     for i in 0..n {
         out.push(var(&format!("{prefix}{i}"), v * scale));
-        v += g[i % g.len()];
+        if i < m { v += g[i]; }
     }
     let a = Array1::from(out);
     if AXIS_REVERSED.with(|r| r.get()) {
@@ -129,7 +136,9 @@ where
         for l in 0..lanes {
             // periodic scenarios need equal first/last shadows for the equal-ends check
             let row = if bc_spec == "Periodic" && i == n - 1 { 0 } else { i };
-            let sh = ((row * 7 + l * 3) % 11) as f64 * 0.5 - 1.75 + (row as f64) * 0.125 * (l as f64 + 1.0);
+            let mut sh = ((row * 7 + l * 3) % 11) as f64 * 0.5 - 1.75 + (row as f64) * 0.125 * (l as f64 + 1.0);
+            // `const=1`: lane 0 holds the same value at every knot (distinct variables, equal shadows)
+            if CONST_LANE.with(|c| c.get()) && l == 0 { sh = 0.625; }
             flat.push(var(&format!("y{i}_{l}"), sh));
         }
     }
@@ -151,13 +160,20 @@ where
             "Natural" => BoundaryCondition::Natural,
             "Clamped" => BoundaryCondition::Clamped,
             "Periodic" => BoundaryCondition::Periodic,
+            "Default" => BoundaryCondition::NotAKnot,   // placeholder: the strategy is built with CubicSpline::default() below
             "Individual" => {
                 // Individual=<row spec for lane 0>|<lane 1>|...   (cycled over the lanes)
                 let specs: Vec<&str> = parts[1].split('|').collect();
                 let mut bshape = shape.clone();
                 bshape[0] = 1;
                 let rows: Vec<RowBoundary<Sym>> = (0..lanes).map(|l| row_boundary(specs[l % specs.len()], l)).collect();
-                BoundaryCondition::Individual(Array::from_shape_vec(bshape, rows).expect("bshape"))
+                let barr = Array::from_shape_vec(bshape.clone(), rows).expect("bshape");
+                if BOUNDS_F.with(|b| b.get()) {
+                    // the same logical boundary array in column-major memory order
+                    let mut f = Array::from_elem(bshape.f(), RowBoundary::NotAKnot);
+                    f.assign(&barr);
+                    BoundaryCondition::Individual(f)
+                } else { BoundaryCondition::Individual(barr) }
             }
             _ => panic!("unknown boundary {bc_spec}"),
         }
@@ -170,7 +186,7 @@ where
         } else { None };
         let spl = if strat_name != "linear" {
             // both orders of the builder calls must configure the same strategy
-            let strat = if BUILDER_ORDER.with(|r| r.get()) { CubicSpline::new().extrapolate(extrap).boundary(bc) } else { CubicSpline::new().boundary(bc).extrapolate(extrap) };
+            let strat = if bc_spec == "Default" { CubicSpline::default().extrapolate(extrap) } else if BUILDER_ORDER.with(|r| r.get()) { CubicSpline::new().extrapolate(extrap).boundary(bc) } else { CubicSpline::new().boundary(bc).extrapolate(extrap) };
             match Interp1DBuilder::new(data).x(x.clone()).strategy(strat).build() { Ok(i) => Some(i), Err(e) => return format!("builderr:{}", err_kind(&e)) }
         } else { None };
         let mut put = |key: &str, q: Sym, outputs: &mut BTreeMap<String, u32>| -> bool {
@@ -269,6 +285,7 @@ fn main() {
         if std::io::stdin().read_line(&mut line).unwrap_or(0) == 0 { break; }
         let args: Vec<String> = line.split_whitespace().map(|s| s.to_string()).collect();
         if args.is_empty() { continue; }
+        let guard = catch_unwind(AssertUnwindSafe(|| {
         match args[0].as_str() {
             "spline" | "linear" => {
                 let strat_name = args[0].clone();
@@ -277,6 +294,8 @@ fn main() {
                 AXIS_GAPSET.with(|g| *g.borrow_mut() = arg(&args, "gapset", "").to_string());
                 AXIS_REVERSED.with(|r| r.set(arg(&args, "xlayout", "") == "rev"));
                 BUILDER_ORDER.with(|r| r.set(arg(&args, "order", "be") == "eb"));
+                CONST_LANE.with(|r| r.set(arg(&args, "const", "0") == "1"));
+                BOUNDS_F.with(|r| r.set(arg(&args, "blayout", "c") == "f"));
                 let n: usize = arg(&args, "n", "4").parse().unwrap();
                 let lanes: Vec<usize> = arg(&args, "lanes", "").split('x').filter(|s| !s.is_empty()).map(|s| s.parse().unwrap()).collect();
                 let bc = arg(&args, "bc", "NotAKnot").to_string();
@@ -302,6 +321,10 @@ fn main() {
             "bilinear" => { AXIS_OFFSET.with(|o| o.set(0.0)); AXIS_SCALE.with(|o| o.set(1.0)); AXIS_GAPSET.with(|g| g.borrow_mut().clear()); AXIS_REVERSED.with(|r| r.set(false)); bil_run(line.trim(), &args) }
             "probe" => probe::probe(arg(&args, "unit", "")),
             other => { AXIS_OFFSET.with(|o| o.set(0.0)); AXIS_SCALE.with(|o| o.set(1.0)); AXIS_GAPSET.with(|g| g.borrow_mut().clear()); AXIS_REVERSED.with(|r| r.set(false)); entry::dispatch(other, &args, line.trim()) }
+        }
+        }));
+        if guard.is_err() {
+            println!("{{\"scenario\":\"{}\",\"result\":\"harness-panic\",\"checks\":[]}}", json_escape(line.trim()));
         }
     }
 }
